@@ -903,7 +903,35 @@ impl PB<'_> {
             self.q(a)
         };
         let cat = self.op1(14, &[big1, big2]);
-        match self.rng.below(12) {
+        match self.rng.below(13) {
+            12 => {
+                // the operator's first allocation touches a value of the ENVIRONMENT (possibly the
+                // newest thing on the heap when the run starts), the garbage comes afterwards, and
+                // the result is that first value: (a (q . (r (c GARBAGE (OP ENVREF (q . tail))))) 1)
+                // (operands are evaluated last to first)
+                let envref = self.leaf(Kind::Bytes);
+                let t = {
+                    let n = 1 + self.rng.usize(6);
+                    let b = self.rng.bytes(n);
+                    let a = self.atom(&b);
+                    self.q(a)
+                };
+                let first = match self.rng.below(3) {
+                    0 => self.op1(14, &[envref, t]),
+                    1 => {
+                        let k = self.rng.below(3) as i128;
+                        let i = self.atom(&int_bytes(k));
+                        let qi = self.q(i);
+                        self.op1(12, &[envref, qi])
+                    }
+                    _ => self.op1(14, &[envref]),
+                };
+                let pairc = self.op1(4, &[cat, first]);
+                let body = self.op1(6, &[pairc]);
+                let qb = self.q(body);
+                let one = self.atom(&[1]);
+                self.op1(2, &[qb, one])
+            }
             9 | 10 => self.gc_small_heap_result(cat),
             11 => {
                 // garbage made of atom SLOTS and pairs only: (sha256 (substr BIG i j) x 64..140);
